@@ -95,13 +95,12 @@ impl Timestamp {
              ('.map(Timestamp)', '.map(|x: u32| -> (o: Timestamp) ensures o.0 == x { Timestamp(x) })', 1, 'R23-constructor-as-function-value + closure-contract (spliced annotation; closure body verbatim)')],
        spec='''    requires st.wf(),
     ensures conv_ok(st.ns(), r),''',
-       before=[('st.duration_since', '''proof {
+       prologue='''proof {
             // floor(ns / 1e9) of secs * 1e9 + nanos with 0 <= nanos < 1e9 is secs
             assert forall|s: int, n: int| 0 <= n < 1_000_000_000 implies #[trigger] ((s * 1_000_000_000 + n) / 1_000_000_000) == s by {
                 vstd::arithmetic::div_mod::lemma_fundamental_div_mod_converse(s * 1_000_000_000 + n, 1_000_000_000, s, n);
             }
-        }
-        ''')]),
+        }'''),
     Fn(TS, 'try_from', impl='impl<TZ: chrono::TimeZone> TryFrom<chrono::DateTime<TZ>> for Timestamp',
        subs=[('fn try_from(dt: chrono::DateTime<TZ>) -> Result<Timestamp, Self::Error>', 'pub fn try_from_chrono<TZ: chrono::TimeZone>(dt: chrono::DateTime<TZ>) -> (r: Result<Timestamp, TimestampError>)', 1, R10),
              ('.map_err(|_| TimestampError::Overflow)', '.map_err(|_e| -> (o: TimestampError) ensures o is Overflow { TimestampError::Overflow })', 1, 'closure-contract (spliced annotation; closure body verbatim)'),
@@ -109,10 +108,9 @@ impl Timestamp {
              ('&chrono::Utc', '&chrono::Utc {}', None, 'R23-unit-struct-value')],
        spec='''    requires dt.wf(),
     ensures conv_ok(dt.ns(), r),''',
-       before=[('let t = dt', '''proof {
+       prologue='''proof {
             vstd::arithmetic::div_mod::lemma_fundamental_div_mod_converse(dt.ns(), 1_000_000_000, dt.secs as int, dt.nanos as int);
-        }
-        ''')]),
+        }'''),
     Raw('''}
 /// "preserves ordering": conversion is monotone on the instants it accepts
 pub fn c20_monotone(a: SystemTime, b: SystemTime)
